@@ -17,13 +17,12 @@ import vlib
 from checks import refsrepr_common as rc
 from checks.refsrepr_common import cps
 
-KNOWN_EQ = "an EqExpr/NeExpr node (deferred equality built by _eq/_neq)"
-KNOWN_NODEPS = "copy_expr_from skips a definition whose expression has no dependencies (a bare container reference)"
 
 LABELS = [["a", 0], ["b", 0], ["c", 0], ["d", 0], ["o", 1], ["f", 0], ["ref", 0]]
 BIN_ARITH = ["AddExpr", "SubExpr", "MulExpr", "MatmulExpr", "TruedivExpr", "FloordivExpr", "ModExpr", "PowExpr",
              "BitwiseAndExpr", "BitwiseOrExpr", "XorExpr", "RshiftExpr", "LshiftExpr"]
 BIN_CMP = ["LtExpr", "LeExpr", "GeExpr", "GtExpr"]
+BIN_EQ = ["EqExpr", "NeExpr"]        # built by ref._eq(x) / ref._neq(x)
 UN = ["NegExpr", "PosExpr", "InvertExpr"]
 STR_KEYS = ["x", "y", "a", "ref_a", "ref", "a['x']", "f.sin", "o", "math", "x'", 'x"', "x'\"", "k]", "[", "a.b", "", " ", "\\", "a\\n", "a\n",
             "\x00", "\x7f", "\xe9", "͸", "\ud800", "\U0001F600", "c['t0']", "round(a, 2)", "(-3 ** a)", "1", "-1", "b['inner']", "=", "k=2", ", "]
@@ -86,13 +85,13 @@ def gen_expr(rng, depth, need_ref=False):
     if k < 0.12:
         return gen_ref(rng, 2)
     if k < 0.55:
-        cls = rng.choice(BIN_ARITH + BIN_CMP)
+        cls = rng.choice(BIN_ARITH + BIN_CMP + BIN_EQ)
         l = gen_operand(rng, depth)
         r = gen_operand(rng, depth)
         if l[0] == "const" and r[0] == "const":
             r = gen_ref(rng, 2)
-        if l[0] == "const" and cls in BIN_CMP:
-            l, r = r, l            # a comparison with a constant on the left is built reflected by Python itself
+        if l[0] == "const" and cls in BIN_CMP + BIN_EQ:
+            l, r = r, l            # a comparison with a constant on the left is built reflected by Python itself; _eq is a method of the reference
         return ["bin", cls, l, r]
     if k < 0.65:
         a = gen_operand(rng, depth)
@@ -147,6 +146,7 @@ def corpus():
             ["bin", "PowExpr", c_int(-3), ["bin", "PowExpr", c_float(-1.5), ax]], ["bin", "PowExpr", ax, c_int(-3)],
             ["bin", "SubExpr", ax, c_int(-3)], ["bin", "MulExpr", c_float(1e+22), ax], ["bin", "AddExpr", ax, c_float(-0.0)],
             ["bin", "PowExpr", ["bin", "PowExpr", c_int(-2), ax], ["bin", "PowExpr", c_int(-2), ay]]]
+    out += eq_family()
     return out
 
 
@@ -154,7 +154,9 @@ def eq_family():
     a = ["top", "a", 0]
     ax = ["item", a, ["const", ["s", cps("x")]]]
     ay = ["item", a, ["const", ["s", cps("y")]]]
-    return [["bin", "EqExpr", ax, ay], ["bin", "NeExpr", ax, c_int(3)], ["bin", "AddExpr", ["bin", "EqExpr", ax, ax], c_int(1)]]
+    return [["bin", "EqExpr", ax, ay], ["bin", "NeExpr", ax, c_int(3)], ["bin", "AddExpr", ["bin", "EqExpr", ax, ax], c_int(1)],
+            ["bin", "NeExpr", ["bin", "EqExpr", ax, c_float(-2.5)], ["un", "NegExpr", ay]], ["attr", ["bin", "EqExpr", ["bin", "AddExpr", ax, ay], ay], cps("real")],
+            ["call", ["attr", ["top", "f", 0], cps("lin")], [["bin", "NeExpr", ay, ax]], [["k", ["bin", "EqExpr", ax, c_int(-1)]]]]]
 
 
 def has_eq(t):
@@ -180,7 +182,7 @@ def in_model_language(t):
     if k == "attr":
         return t[1][0] != "const" and in_model_language(t[1])
     if k == "bin":
-        return t[1] not in ("EqExpr", "NeExpr") and in_model_language(t[2]) and in_model_language(t[3])
+        return (t[1] not in BIN_EQ or t[2][0] != "const") and in_model_language(t[2]) and in_model_language(t[3])
     if k == "un":
         return in_model_language(t[2])
     if k == "builtin":
@@ -229,9 +231,6 @@ def model_correspondence(ctx, exprs, results, tag, rebind=None):
                 tok_ids.append(i)
             if in_model_language(t) and r.get("rebuilt"):
                 parse_items.append(f"({et}, {rc.emit_term(r['rebuilt'], ft, cid)})")
-                parse_ids.append(i)
-            elif has_eq(t) and r.get("rebuilt") and t[0] == "bin" and t[1] in ("EqExpr", "NeExpr") and in_model_language(["bin", "AddExpr", t[2], t[3]]):
-                parse_items.append(f"({et}, {rc.emit_term(r['rebuilt'], ft, cid)})")   # the model predicts the bool as well
                 parse_ids.append(i)
             if rebind and in_model_language(t) and r.get("rebound"):
                 reb_items.append(f"({et}, {rc.emit_term(r['rebound'], ft, cid)})")
@@ -334,8 +333,6 @@ def shrink_expr(t, fails):
 
 def expr_fails(build, rebind=None):
     def f(t):
-        if has_eq(t):
-            return False
         r = run_exprs([t], build, rebind)[0]
         return expr_verdict(r, bool(rebind)) is not None
     return f
@@ -389,6 +386,9 @@ def gen_num_expr(rng, in_label, tgt_label, navail, depth=2):
             if l[0] == "const" and r[0] == "const":
                 r = leaf(in_label, rng.choice(IN_LEAVES))
             return ["bin", cls, l, r]
+        if k < 0.6:
+            a = operand(d)
+            return ["bin", rng.choice(BIN_EQ), a if a[0] != "const" else leaf(in_label, ["y"]), operand(d)]
         if k < 0.65:
             a = operand(d)
             return ["un", "NegExpr", a if a[0] != "const" else leaf(in_label, ["x"])]
@@ -426,6 +426,10 @@ def gen_manager_case(rng):
         history.append([tgt, val])
     if rng.random() < 0.5:
         history.append([leaf("g", ["u"]), gen_num_expr(rng, "a", "c", ntg)])
+    nodeps = rng.random() < 0.3
+    if nodeps:
+        # a definition without dependencies: the value is the container reference itself
+        history.append([leaf("c", ["q"]), ["top", "a", 0]])
     followups = []
     for _ in range(rng.randint(2, 5)):
         if rng.random() < 0.75:
@@ -439,6 +443,8 @@ def gen_manager_case(rng):
     # copy_expr_from
     mode = rng.choice(["same", "rebind_in", "rebind_in", "rebind_both"])
     src_tasks = [[leaf("c", [f"t{k}"]), defs[k]] for k in sorted(defs)]    # t_k only reads t_j with j < k
+    if nodeps:
+        src_tasks.append([leaf("c", ["q"]), ["top", "a", 0]])
     cp = {"name": "c", "overwrite": rng.random() < 0.5, "source_tasks": src_tasks}
     if mode == "same":
         cp["data"] = {"a": D(INPUT), "c": D({"z": 0})}
@@ -520,7 +526,7 @@ NODEPS_WITNESS = {
 
 def run(ctx):
     ctx.rule = ("random expressions (depth <= 4) over every node class: 13 arithmetic/bitwise/shift and 4 comparison operators with "
-                "references or int/float constants of either sign and exponent forms on either side, unary - + ~, abs / round(x[, n]) / "
+                "references or int/float constants of either sign and exponent forms on either side, the deferred comparisons _eq / _neq, unary - + ~, abs / round(x[, n]) / "
                 "divmod / math.floor / ceil / trunc, calls through references with positional and keyword arguments, item keys of any "
                 "content (quotes, brackets, control characters, non-ASCII, lone surrogates, text containing container labels or printed "
                 "expressions), int / float / computed keys, attribute and item access on expressions; containers a b c d f ref (Ref) and "
@@ -542,7 +548,6 @@ def run(ctx):
               ["o", ["attr", ["top", "c", 0], cps("sub")]],
               ["ref", ["item", ["item", ["top", "d", 0], ["const", ["i", "0"]]], ["const", ["s", cps("ref_a")]]]]]
     res = {b: run_exprs(exprs, b, rebind if b == "compiled" else None) for b in ("compiled", "pure")}
-    eqres = run_exprs(eq_family(), "compiled")
     # -- oracle verdicts
     viol = []
     for b in ("compiled", "pure"):
@@ -580,7 +585,7 @@ def run(ctx):
                             not viol, f"{len(viol)} failing of {ncase}"))
     # -- manager histories
     ncases = ctx.pick(250, 12000)
-    mcases = [gen_manager_case(rng) for _ in range(ncases)]
+    mcases = [NODEPS_WITNESS] + [gen_manager_case(rng) for _ in range(ncases)]
     mres = {("compiled", 0): run_managers(mcases, "compiled", 0), ("pure", 1): run_managers(mcases, "pure", 1)}
     mviol = [(b, i, r["fail"]) for (b, hs), rs in mres.items() for i, r in enumerate(rs) if r.get("fail")]
     skipped = sum(1 for r in mres[("compiled", 0)] if r.get("skipped"))
@@ -596,26 +601,12 @@ def run(ctx):
                                      "copy_modes": {m: sum(1 for c in mcases if len(c["copy"]["bindings"]) == k) for m, k in (("same", 0), ("rebind_input", 1), ("rebind_input_and_target", 2))},
                                      "copy_overwrite_true": sum(1 for c in mcases if c["copy"]["overwrite"])}
     # -- model correspondence
-    mism, counts, err = model_correspondence(ctx, exprs + eq_family(), res["compiled"] + eqres, "e", rebind)
+    mism, counts, err = model_correspondence(ctx, exprs, res["compiled"], "e", rebind)
     corr_ok = err is None and not any(mism.values())
     for k, name in (("show", "model show = str(e) byte for byte"), ("tok", "model show_tokens = Python tokenize(str(e))"),
                     ("parse", "model parse = structure of eval(str(e))"), ("rebound", "model parse in a rebinding namespace = structure of eval")):
         ctx.obligations.append((f"correspondence: {name}", err is None and not (mism or {}).get(k),
                                 err or f"{len(mism[k])} mismatching of {counts[k]}"))
-    # -- known findings
-    for e in [x for x in vlib.known_findings("C11") if x.get("kind") == "known"]:
-        if e["signature"] == KNOWN_EQ:
-            bad = [expr_verdict(r) for r in eqres]
-            if any(bad):
-                vlib.known(ctx, f"{KNOWN_EQ}: a._eq(b) prints as (a == b), which evaluates to a bool ({sum(1 for b in bad if b)} of {len(bad)} witnesses fail)")
-            else:
-                ctx.notes.append("known finding C11 (EqExpr/NeExpr): witnesses no longer fail")
-        elif e["signature"] == KNOWN_NODEPS:
-            r = run_managers([NODEPS_WITNESS])[0]
-            if r.get("fail"):
-                vlib.known(ctx, f"{KNOWN_NODEPS}: c['q'] = a is dumped and loaded but not copied")
-            else:
-                ctx.notes.append("known finding C11 (definition without dependencies not copied): witness no longer fails")
     # -- decision
     if viol:
         b, i, v = viol[0]
@@ -640,8 +631,8 @@ def run(ctx):
         for k in ("show", "tok", "parse", "rebound"):
             if mism and mism.get(k):
                 i = mism[k][0]
-                allx = exprs + eq_family()
-                allr = res["compiled"] + eqres
+                allx = exprs
+                allr = res["compiled"]
                 first = first or {"kind": k, "expr": allx[i], "text": rc.from_cps(allr[i].get("text", [])).encode("utf-8", "backslashreplace").decode(),
                                   "rebuilt": allr[i].get("rebuilt")}
                 what.append(f"correspondence '{k}' broke on {len(mism[k])} expressions")
@@ -650,7 +641,7 @@ def run(ctx):
         for b in ("compiled", "pure"):
             rs = run_exprs(extra, b)
             for t, r in zip(extra, rs):
-                if expr_verdict(r) and not has_eq(t):
+                if expr_verdict(r):
                     found = (b, t)
                     break
             if found:
@@ -674,7 +665,7 @@ def replay(ctx, data):
         v = expr_verdict(r, bool(data.get("rebind")))
         print(json.dumps({"text": rc.from_cps(r.get("text", [])).encode("utf-8", "backslashreplace").decode(),
                           "result": {k: r.get(k) for k in ("eval", "is_ref", "eq", "value_same", "deps_same", "values", "deps", "rebound_ok")}}, indent=1))
-        if v and not has_eq(data["expr"]):
+        if v:
             print(f"VIOLATION property=C11 replay=(given) : {v}")
             return 1
         print("replay: the expression round-trips on this input")
